@@ -304,6 +304,14 @@ def run(tier, seed, factor=1):
 
     bouts = specrun.pool_map(c12.worker, [(seed * 7877 + 500 + i, 3, 5) for i in range(common.scale(tier, 48, 200) * factor)])
     specrun.quiet()
+    bj = [x for o in bouts for x in o.get("bijson", [])]
+    got = common.run_driver("BijJson", "\n".join(x[0] for x in bj) + "\n") if bj else []
+    assert len(got) == len(bj)
+    for (ent, expect, inp), line in zip(bj, got):
+        res.dist["bijection matchings: JSON form vs the Lean model (BijJson)"] += 1
+        if line != expect:
+            res.diff("JSON form of a bijection's matching (classes array, nested dictionary, rebuilt matching) vs the Lean model", inp,
+                     line[:400], expect[:400])
     for o in bouts:
         res.case(("bijections", o["seed"], o["bijections"]), nontrivial=o["bijections"] >= 1)
         res.dist["bijections round-tripped through JSON"] += o["bijections"]
